@@ -153,6 +153,7 @@ func hasProp(fc *FuncContract, p string) bool {
 	all := append(append([]*Clause{}, fc.Requires...), fc.Ensures...)
 	for _, lc := range fc.Loops {
 		all = append(all, lc.Invariants...)
+		all = append(all, lc.Ensures...)
 	}
 	for _, cs := range fc.CallSites {
 		all = append(all, cs.Clause)
